@@ -58,7 +58,7 @@ func runC03(c *core.Ctx) error {
 	checkUniqueFieldInference(c, prog)
 	r9 := c.NewRule("R03.9", "S1", "member schemas are generated through schemaGen.generate, the only place that boxes a nullable / optional type (and counts the depth)", 2)
 	checkWhoMayCall(c, r9, prog, pkgGen, "schemaGen.generate2", map[string]string{
-		"ogen/gen.schemaGen.generate":            "the boxing wrapper itself",
+		"ogen/gen.schemaGen.generate":           "the boxing wrapper itself",
 		"ogen/gen.schemaGen.collectSumVariants": "a sum variant cannot be optional, and a nullable variant is represented by the Null member collectSumVariants adds to the sum",
 	}, "generate2 returns the bare type: `nullable: true` of the member schema is lost (null is then rejected by the generated decoder although the schema admits it) and the recursion depth counter is bypassed")
 	return checkValidateAfterDecode(c)
